@@ -14,6 +14,7 @@ import Mathlib.Tactic.Linarith
 import Mathlib.Tactic.NormNum
 import Mathlib.Algebra.Order.Field.Basic
 import Mathlib.Algebra.Order.AbsoluteValue.Basic
+import Mathlib.Data.List.Basic
 
 namespace Atomman.C04
 open Atomman Atomman.C04.Gen
@@ -37,6 +38,73 @@ theorem gen_replicaRel_eq_model {K : Type} [Add K] [Sub K] [Mul K] [Div K] [IntC
     (sa sb sc : Size) (q : V3 K) (r0 r1 r2 : Nat) :
     genReplicaRel sa sb sc q r0 r1 r2 = replicaRel sa sb sc q r0 r1 r2 := rfl
 
+/-! ### the numpy bookkeeping of `supersize`: which offset and which input row go with which row of the result -/
+
+/-- the replica counters and copy indices the broadcasting statements of the source build ARE the model's. -/
+theorem gen_offsets_eq_model :
+    genOffsetsX = offsetsX ∧ genOffsetsY = offsetsY ∧ genOffsetsZ = offsetsZ ∧ genCopyIndex = copyIndex ∧
+    genSposIndex = copyIndex ∧ genSkippedKey = "pos" := ⟨rfl, rfl, rfl, rfl, rfl, rfl⟩
+
+theorem flatMap_const_replicate {α : Type} (k n : Nat) (c : α) :
+    ((List.range k).flatMap fun _ => List.replicate n c) = List.replicate (k * n) c := by
+  induction k with
+  | zero => simp
+  | succ k ih =>
+    rw [List.range_succ, List.flatMap_append, ih, Nat.succ_mul, List.replicate_add]
+    simp
+
+theorem tileList_eq_flatten {α : Type} (k : Nat) (l : List α) : tileList k l = (List.replicate k l).flatten := by
+  unfold tileList
+  induction k with
+  | zero => simp
+  | succ k ih => rw [List.range_succ, List.flatMap_append, ih]; simp [List.replicate_succ', List.flatten_append]
+
+theorem tileList_mul {α : Type} (a b : Nat) (l : List α) : tileList a (tileList b l) = tileList (a * b) l := by
+  rw [tileList_eq_flatten, tileList_eq_flatten, tileList_eq_flatten]
+  induction a with
+  | zero => simp
+  | succ a ih => rw [List.replicate_succ, List.flatten_cons, ih, Nat.succ_mul, Nat.add_comm, List.replicate_add, List.flatten_append]
+
+theorem offsets_spec (N m0 m1 m2 : Nat) :
+    copyIndex N m0 m1 m2 = (replicaOrder N m0 m1 m2).map (·.1) ∧
+    offsetsX N m0 m1 m2 = (replicaOrder N m0 m1 m2).map (·.2.1) ∧
+    offsetsY N m0 m1 m2 = (replicaOrder N m0 m1 m2).map (·.2.2.1) ∧
+    offsetsZ N m0 m1 m2 = (replicaOrder N m0 m1 m2).map (·.2.2.2) := by
+  refine ⟨?_, ?_, ?_, ?_⟩
+  · simp only [copyIndex, replicaOrder, List.map_flatMap, List.map_map, Function.comp_def, List.map_id']
+    have : m0 * m1 * m2 = m2 * (m1 * m0) := by ring
+    rw [this, ← tileList_mul, ← tileList_mul]
+    rfl
+  · simp only [offsetsX, replicaOrder, List.map_flatMap, List.map_map, Function.comp_def, List.map_const', List.length_range]
+    rfl
+  · simp only [offsetsY, replicaOrder, List.map_flatMap, List.map_map, Function.comp_def, List.map_const', List.length_range,
+      flatMap_const_replicate]
+    rfl
+  · simp only [offsetsZ, replicaOrder, List.map_flatMap, List.map_map, Function.comp_def, List.map_const', List.length_range,
+      flatMap_const_replicate]
+    rfl
+
+theorem map_eq_range_filterMap {α β : Type} (l : List α) (f : α → β) :
+    l.map f = (List.range l.length).filterMap (fun i => l[i]?.map f) := by
+  induction l with
+  | nil => simp
+  | cons a l ih =>
+    rw [List.length_cons, List.range_succ_eq_map, List.filterMap_cons]
+    simp only [List.getElem?_cons_zero, Option.map_some, List.map_cons, List.filterMap_map, Function.comp_def,
+      List.getElem?_cons_succ]
+    rw [← ih]
+
+/-- **the rows of the result in terms of the broadcasting bookkeeping**: row `k` of the system `supersize` returns is the
+    atom `copyIndex[k]` of the input at replica `(offsetsX[k], offsetsY[k], offsetsZ[k])` (with `offsets_spec`). -/
+theorem supersizeAtoms_eq_order {K : Type} [Add K] [Sub K] [Mul K] [Div K] [IntCast K]
+    (b : Box K) (sa sb sc : Size) (atoms : List (Atom K)) :
+    supersizeAtoms b sa sb sc atoms =
+      (replicaOrder atoms.length sa.mult.toNat sb.mult.toNat sc.mult.toNat).filterMap fun t =>
+        atoms[t.1]?.map fun a => { a with pos := replicaPos b sa sb sc a.pos t.2.1 t.2.2.1 t.2.2.2 } := by
+  unfold supersizeAtoms replicaOrder
+  simp only [List.filterMap_flatMap, List.filterMap_map, Function.comp_def]
+  congr 1; funext r2; congr 1; funext r1; congr 1; funext r0
+  exact map_eq_range_filterMap atoms _
 section
 variable {K : Type} [Field K] [LinearOrder K] [IsStrictOrderedRing K]
 
@@ -168,6 +236,35 @@ section
 variable {K : Type} [Add K] [Sub K] [Mul K] [Div K] [IntCast K] [Zero K] [One K] [LT K] [LE K]
   [DecidableLT K] [DecidableLE K]
 
+/-- one pass of the site loop of the source is the model's. -/
+theorem gen_siteStep_eq_model : genSiteStep = siteStep := rfl
+
+/-- the site search is called with the caller's tolerances. -/
+theorem gen_siteCallKw_eq_model : genSiteCallKw = [("rtol", "rtol"), ("atol", "atol")] := by decide
+
+/-- **the site loop of the model is the iteration of that pass**: at each site the loop looks at the number of atoms found
+    and at the type of the first; it returns `False` / raises / moves on as `siteStep` says. -/
+theorem checkSitesBy_step (hit : V3 K → Atom K → Bool) (atoms : List (Atom K)) (site : V3 K) (rest : List (V3 K))
+    (ty : Option Int) :
+    checkSitesBy hit atoms (site :: rest) ty =
+      match siteStep (atoms.filter (hit site)).length (((atoms.filter (hit site)).map (·.atype)).headD 0) ty with
+      | .ret b => some b
+      | .raise => none
+      | .next ty' => checkSitesBy hit atoms rest ty' := by
+  rw [checkSitesBy]
+  generalize atoms.filter (hit site) = l
+  match l with
+  | [] => simp [siteStep]
+  | [a] =>
+    cases ty with
+    | none => simp [siteStep]
+    | some t0 =>
+      by_cases h : a.atype = t0
+      · simp [siteStep, h]
+      · have h' : ¬ t0 = a.atype := fun e => h e.symm
+        simp [siteStep, h, h']
+  | a :: b :: l' => simp [siteStep]
+
 /-- the family gate sits in front of the site loop. -/
 theorem gen_familyGate_eq_model (fl : K → Int) (fam : Option Family) (b : Box K) (atol2 : K) (cf : Bool) (s : String)
     (atoms : List (Atom K)) :
@@ -184,11 +281,8 @@ end
 theorem gen_pins_eq_model :
     genPins =
       [("c2p_cut", "3208b455e0a889e0"),
-       ("check_setting_basis_site_loop", "c9f237220412e755"),
        ("index_of_pos", "3e9868255670a9b1"),
        ("p2c_body", "b9ee3a2119011597"),
-       ("rotate_tail", "365519a697f9f3cc"),
-       ("supersize_broadcast", "8161b9b5fbe4a6cd"),
-       ("supersize_copy_loop", "6ffb92cc00b5215e")] := by decide
+       ("rotate_tail", "365519a697f9f3cc")] := by decide
 
 end Atomman.C04
